@@ -150,6 +150,22 @@ func checkC18(c *Check) {
 			c.Bad("register-mark", name, p.InstrPos(m.Ins), "stores a computed value "+trimOrg(val.String())+" into the ready map: registration must store false and the ready-mark true")
 		}
 	}
+	// the registration and the ready-mark are unconditional: a memo, a
+	// fast path or a guard in front of the store makes a later mark (after a
+	// component was registered again) a no-op
+	for _, m := range mops {
+		if m.Method != "Store" || m.EP != m.Fn.Name() {
+			continue
+		}
+		site := m.Ins
+		fn := site.Parent()
+		skip := searchAvoiding(fn, nil, isReturn, func(in ssa.Instruction) bool { return in == site })
+		pos := p.InstrPos(m.Ins)
+		if skip != nil {
+			pos = p.InstrPos(skip)
+		}
+		c.Cond(skip == nil, "register-mark", "Store in "+m.Fn.Name()+" is unconditional", pos, "every path through "+fn.Name()+" performs the store", fn.Name()+" can return without storing into the ready map (a memo or guard in front of the store): a component registered again and marked again stays not-ready, or a registration is lost")
+	}
 	c.Cond(nreg >= 1 && nmark >= 1, "register-mark", "registration and ready-mark methods", "-", fmt.Sprintf("%d registration store(s), %d ready-mark store(s)", nreg, nmark), fmt.Sprintf("%d registration store(s) of false and %d ready-mark store(s) of true found", nreg, nmark))
 	maps := map[string]bool{}
 	for _, m := range mops {
@@ -591,6 +607,57 @@ func handlerRule(c *Check, h, builder *ssa.Function, _ []mopLite, overall, ready
 				bodyOK = true
 			}
 		}
+	})
+	// ... and is rendered into storage of this request only: the response
+	// writer itself or a buffer allocated in this activation. A scratch
+	// buffer kept in the Health object is shared by overlapping requests
+	rr := NewResolver(p)
+	allInstrs(h, func(in ssa.Instruction) {
+		cl, ok := in.(*ssa.Call)
+		if !ok {
+			return
+		}
+		cc := cl.Common()
+		var dst ssa.Value
+		what := ""
+		if sc := staticCallee(cc); sc != nil && sc.String() == "encoding/json.NewEncoder" && len(cc.Args) == 1 {
+			dst, what = cc.Args[0], "destination of the JSON encoder"
+		} else if cc.IsInvoke() && cc.Method.Name() == "Write" && len(cc.Args) == 1 && typeName(cc.Value.Type()) == "http.ResponseWriter" {
+			dst, what = cc.Args[0], "bytes written to the response"
+		}
+		if dst == nil {
+			return
+		}
+		shared := ""
+		var walk func(o *Org, depth int)
+		walk = func(o *Org, depth int) {
+			if o == nil || depth > 6 || shared != "" {
+				return
+			}
+			if o.K == "field" {
+				root, names := o.FieldPath()
+				if root.K == "param" && len(h.Params) > 0 && root.V == ssa.Value(h.Params[0]) {
+					shared = "field " + strings.Join(names, ".") + " of the Health object"
+					return
+				}
+			}
+			if o.K == "global" {
+				shared = "package-level variable " + o.Name
+				return
+			}
+			if o.K == "call" {
+				if c2, ok := o.V.(*ssa.Call); ok {
+					for _, a := range c2.Call.Args {
+						walk(rr.Of(a), depth+1)
+					}
+				}
+			}
+			for _, sub := range o.Sub {
+				walk(sub, depth+1)
+			}
+		}
+		walk(rr.Of(dst), 0)
+		c.Cond(shared == "", "status-code-from-same-map", name+": "+what+" belongs to this request", p.InstrPos(in), "the response writer or storage allocated in this activation", "the response is rendered through "+shared+", which overlapping requests share: one request can send its status code with another request's (or a torn) body")
 	})
 	c.Cond(bodyOK, "status-code-from-same-map", name+": body is the snapshot", p.Pos(h.Pos()), "the encoded body is the map the status code was derived from", "the encoded body is not the snapshot the status code was derived from")
 }
